@@ -47,6 +47,8 @@ def run(repo: Repo, rep: Report, tier: str) -> None:
     from ..core.report import Only
     from . import c08 as _c08
     _c08._r08_2(repo, Only(rep, {"R08.2"}))
+    from . import c10 as _c10
+    _c10._r10_3_semantic(repo, Only(rep, {"R10.3"}))
 
 MAIN_DEF_SITES = ("_add_pack_method_definition", "_add_unpack_method_definition", "add_encode_method", "add_decode_method")
 
@@ -352,3 +354,6 @@ def _codecs(repo: Repo, rep: Report) -> None:
 _ADDENDUM = ' R13.9: helper definitions installed on a shared holder carry a per-compilation token. Borrowed: R08.2 (option lookup chain call dialect > default dialect > Config.dialect > Config).'
 EXPLANATION += _ADDENDUM
 LEVEL_TEXT += _ADDENDUM
+_ADD8 = ' Borrowed: R10.3 (strategy levels in the documented order, decided on the evaluated generator).'
+EXPLANATION += _ADD8
+LEVEL_TEXT += _ADD8
